@@ -53,3 +53,9 @@ claim("C17",
   "Decides for all inputs the placement/partition facts of the five converters and that the two directions of each converter agree on sizes and field order, including index safety of the dual-stack address and the 'container appended exactly once, even when the list ends after an empty container' discipline of the PCO decoder.",
   "Level 'other'. Not decided: inverse laws as value equalities; net/hex library behaviour (trusted).",
   "DESIGN.md §5 C17")
+
+claim("C15",
+  "canonical access-path matching of the f1/f2345/OPc/AUTN byte loops against the TS 35.206 tables (rotation index offsets, XOR constants, output slices, nil-guards), sign/interval analysis of the comparison helper's returns per inequality branch plus a known-bad-idiom rule, argument-role and control-dependence checks of Milenage_check / Milenage_auts",
+  "Decides for all K/OP/RAND/SQN/AMF the table facts of TS 35.206 the implementation rests on (r1..r5, c1..c5, which half of which OUT block is which output, IN1 and AUTN layouts, OPc) and the two-sided acceptance logic: the comparison helper's result has the sign of the first differing octet and is 0 only for equal buffers, freshness is decided over all 6 SQN octets, MAC-A and MAC-S are compared over all 8 octets, and the resynchronisation token is built over the UE's SQN with AMF 0000.",
+  "Level 'other'. Trusted: crypto/aes. Not decided: numerical equality with TS 35.208 vectors (nothing is executed).",
+  "DESIGN.md §5 C15")
